@@ -205,12 +205,16 @@ class Ctx:
                 return False, "coqchk (independent checker) rejects the development or reports axioms", out2[-3000:]
         return True, None, log
 
-    def coq_eval(self, name, body, timeout=900):
-        """Compile a scratch .v file against the development and return coqc's output."""
+    def coq_eval(self, name, body, timeout=900, mem_kb=None):
+        """Compile a scratch .v file against the development and return coqc's output.  With mem_kb the evaluator's address
+        space is limited (an evaluation that decodes garbage to absurd sizes fails fast instead of exhausting the machine)."""
         path = os.path.join(self.scratch, name + ".v")
         with open(path, "w") as f:
             f.write(body)
-        rc, o, e = sh(["coqc", "-Q", COQ, "YV", path], cwd=self.scratch, timeout=timeout)
+        cmd = ["coqc", "-Q", COQ, "YV", path]
+        if mem_kb:
+            cmd = ["bash", "-c", "ulimit -v %d; exec coqc -Q %s YV %s" % (mem_kb, COQ, path)]
+        rc, o, e = sh(cmd, cwd=self.scratch, timeout=timeout)
         if rc != 0:
             raise RuntimeError("coqc failed on %s:\n%s" % (path, (o + e)[-3000:]))
         return o
